@@ -267,6 +267,12 @@ def oracle(f, frame: bytes):
             return ("fields-differ", f"{path} path: target_radio_id differs from the destination id the frame encodes", tw, t)
         if b.hytera_ipsc.source_radio_id != f["src"]:
             return ("fields-differ", f"{path} path: hytera_ipsc.source_radio_id differs from the frame", f["src"], b.hytera_ipsc.source_radio_id)
+        if parts[0] in ("sync", "wakeup"):
+            # the payload bits through the burst's own serialiser (coverage round: as_bits of the two IPSC-only burst classes was never
+            # executed; they are not DMR bursts - no slot type, no EMB - and hand the frame's payload back as it is)
+            ab = call(lambda: hx(b.as_bits().tobytes()))
+            if ab != parts[2]:
+                return ("fields-differ", f"{path} path: as_bits() of the {parts[0]} burst is not the payload the frame carries", parts[2], ab)
         s = call(b.hytera_ipsc.as_ipsc_bytes)
         if s != frame:
             return ("reserialise", f"{path} path: the decoded frame does not serialise to the original 72 octets", frame.hex(), s if is_err(s) else s.hex())
